@@ -407,14 +407,12 @@ theorem readPart_le {P : Nat} {f1 f2 : Array UInt8} (hr : ReadsLe P f1 f2) (fh1 
   refine LeR.bind (LeR.refl _) (fun mesh _ => ?_)
   refine LeR.bind (readVertices_le hr lod mesh decl hP) (fun vertices _ => ?_)
   refine LeR.bind (LeR.refl _) (fun ioff hioff => ?_)
-  refine LeR.bind (LeR.refl _) (fun s2 _ => ?_)
-  refine LeR.bind (LeR.refl _) (fun ia hia => ?_)
-  have e1 := addU32_toNat hia
   have e2 := hio ioff (idx3_inv hioff)
-  have hrd : ∀ b, readAt f1 ia.toNat (2 * mesh.indexCount.toNat) = some b →
-      readAt f2 ia.toNat (2 * mesh.indexCount.toNat) = some b := fun b => hr _ _ b (by omega)
-  generalize readAt f1 ia.toNat (2 * mesh.indexCount.toNat) = o1 at hrd ⊢
-  generalize readAt f2 ia.toNat (2 * mesh.indexCount.toNat) = o2 at hrd ⊢
+  have hrd : ∀ b, readAt f1 (ioff.toNat + mesh.startIndex.toNat * 2) (2 * mesh.indexCount.toNat) = some b →
+      readAt f2 (ioff.toNat + mesh.startIndex.toNat * 2) (2 * mesh.indexCount.toNat) = some b :=
+    fun b => hr _ _ b (by omega)
+  generalize readAt f1 (ioff.toNat + mesh.startIndex.toNat * 2) (2 * mesh.indexCount.toNat) = o1 at hrd ⊢
+  generalize readAt f2 (ioff.toNat + mesh.startIndex.toNat * 2) (2 * mesh.indexCount.toNat) = o2 at hrd ⊢
   cases o1 with
   | none => intro p hp; cases hp
   | some b =>
